@@ -627,11 +627,11 @@ Fixpoint oracle_walk (max max_hls : N) (cur : option open_block) (rs : list rfc_
       | DevResetStreamZero, POk (LdFrame f) =>
           match is with IFrame f' :: _ => frame_eqb f f' | _ => false end
       | _, _ =>
+          (* the one place where the *code* matters to C12: a frame above the limit *)
+          let oversize := match declared_length fr with Some l => max <? l | None => false end in
           match is with
-          | IGoAway r _ :: _ => if code =? FRAME_SIZE_ERROR then (r =? reason_FRAME_SIZE_ERROR) || negb (olen fr =? 0) && true
-                               else true
-          | IReset _ _ :: _ => negb (code =? FRAME_SIZE_ERROR) || negb (match declared_length fr with
-                                                                          | Some l => max <? l | None => false end)
+          | IGoAway r _ :: _ => if oversize then r =? reason_FRAME_SIZE_ERROR else true
+          | IReset _ _ :: _ => negb oversize
           | _ => false
           end
       end
